@@ -469,10 +469,26 @@ def parseQuotedDec (v : String) : Option Int :=
 def parseQuotedAddr (v : String) : Option Addr :=
   (unquote v).bind fun cs => if cs.length == 40 then some (String.ofList cs) else none
 
+/-- set the owner of one key in the access-control list (first match; appended if the key is new) -/
+def aclSet : List (String × Addr) → String → Addr → List (String × Addr)
+  | [], k, o => [(k, o)]
+  | (k', o') :: rest, k, o => if k' == k then (k, o) :: rest else (k', o') :: aclSet rest k o
+
+/-- remove a key from the access-control list (a new list that omits it) -/
+def aclDrop (l : List (String × Addr)) (k : String) : List (String × Addr) := l.filter (fun e => e.1 != k)
+
+/-- the model's reading of a new access-control list: the line protocol describes it as `<key>=<new owner>`, the one
+entry in which it differs from the current list (the implementation receives the full list as JSON) -/
+def parseAclChange (val : String) : Option (String × Addr) :=
+  match val.splitOn "=" with
+  | [k, o] => if k == "" then none else some (k, o)
+  | _ => none
+
 /-- `Subspace.Update` for the parameters the model tracks; a value that does not decode leaves
 the parameter unchanged (the error is ignored by `ModifyParam`). -/
 def applyParam (s : State) (key val : String) : State :=
   match key with
+  | "gov/acl" => match parseAclChange val with | some (k, o) => { s with acl := if o == "" then aclDrop s.acl k else aclSet s.acl k o } | none => s
   | "pos/MaxValidators" => match parseQuotedInt val with | some n => { s with p := { s.p with maxVals := n } } | none => s
   | "pos/StakeMinimum" => match parseQuotedInt val with | some n => { s with p := { s.p with minStake := n } } | none => s
   | "pos/UnstakingTime" => match parseQuotedInt val with | some n => { s with p := { s.p with unstakingTime := n } } | none => s
